@@ -93,6 +93,8 @@ def translate(repo):
     fields = re.search(r"pub struct InjectorPP \{(.*?)\n\}", inj, re.S)
     names = re.findall(r"^\s*(?:pub(?:\([a-z]+\))? )?(\w+):", re.sub(r"//[^\n]*", "", fields.group(1)), re.M) if fields else []
     C["LOCK_FIELD_DROPPED_LAST"] = 1 if names and names[-1] == "_lock" and "guards" in names and "verifiers" in names and names.index("guards") < names.index("verifiers") else 0
+    nw = body_of(inj, "pub fn new() -> Self")
+    C["NEW_TAKES_THE_LOCK"] = 1 if re.search(r"let (\w+) = LOCK_FUNCTION\.lock\(\);", nw) and re.search(r"_lock: \w+,", nw) else 0
     return C
 
 def to_coq(C):
